@@ -1726,6 +1726,23 @@ def kani_part(out, prop, tier, seed):
     if hs:
         decls, hs = prefilter(out, prop, decls, hs)
         kani_run_harnesses(out, prop, prop, decls, hs, extra_items=extra)
+    if prop in ('C01', 'C05') and hs:
+        # constructors / guarded entry points once more in a release-like build (debug assertions off)
+        import copy
+        sel = [h for h in hs if h.what in ('try_new', 'new') or h.what.startswith('guards run')]
+        if prop == 'C01':
+            sel = [h for h in sel if h.decl.family == 'float'][:40]
+        dd = []
+        rel = []
+        for h in sel:
+            if h.decl not in dd:
+                dd.append(h.decl)
+            h2 = copy.copy(h)
+            h2.what = h.what + ' [release-like build: debug assertions off]'
+            h2.key = '%s::%s' % (h.decl.id, h2.what)
+            rel.append(h2)
+        if rel:
+            kani_run_harnesses(out, prop, prop + 'r', dd, rel, extra_items=extra, release_like=True)
     if prop == 'C03' and hs:
         # the same Default harnesses once more in a release-like build (debug assertions OFF): a guard that
         # only exists as `debug_assert!` must not be what keeps an invalid default out
